@@ -34,6 +34,7 @@ theorem localsRaw_eq (lf : Labels) (pos : Nat → Nat) (as : List SCodeAttr) :
     | lines _ _ => simp [localsRaw, localsOf, ih]
     | frames _ _ => simp [localsRaw, localsOf, ih]
     | unknown _ _ _ => simp [localsRaw, localsOf, ih]
+    | typeAnnos _ _ _ => simp [localsRaw, localsOf, ih]
 
 theorem mem_linesOf (as : List SCodeAttr) (ls : List (Nat × Nat)) (h : linesOf as = some ls) (e : Nat × Nat) (he : e ∈ ls) :
     ∃ nc es, SCodeAttr.lines nc es ∈ as ∧ e ∈ es := by
@@ -56,6 +57,7 @@ theorem mem_linesOf (as : List SCodeAttr) (ls : List (Nat × Nat)) (h : linesOf 
     | lvtt _ _ => simp only [linesOf] at h; obtain ⟨nc', es', hm, he'⟩ := ih ls h he; exact ⟨nc', es', by simp [hm], he'⟩
     | unknown _ _ _ => simp only [linesOf] at h; obtain ⟨nc', es', hm, he'⟩ := ih ls h he; exact ⟨nc', es', by simp [hm], he'⟩
     | frames _ _ => simp only [linesOf] at h; obtain ⟨nc', es', hm, he'⟩ := ih ls h he; exact ⟨nc', es', by simp [hm], he'⟩
+    | typeAnnos _ _ _ => simp only [linesOf] at h; obtain ⟨nc', es', hm, he'⟩ := ih ls h he; exact ⟨nc', es', by simp [hm], he'⟩
 
 theorem mem_localsOf (as : List SCodeAttr) (ls : List Lv) (h : localsOf as = some ls) (v : Lv) (hv : v ∈ ls) :
     ∃ nc es sv, (SCodeAttr.lvt nc es ∈ as ∨ SCodeAttr.lvtt nc es ∈ as) ∧ sv ∈ es ∧ v.start = sv.start ∧ v.end_ = sv.end_ := by
@@ -89,6 +91,95 @@ theorem mem_localsOf (as : List SCodeAttr) (ls : List Lv) (h : localsOf as = som
     | lines _ _ => simp only [localsOf] at h; exact tail ls h hv
     | frames _ _ => simp only [localsOf] at h; exact tail ls h hv
     | unknown _ _ _ => simp only [localsOf] at h; exact tail ls h hv
+    | typeAnnos _ _ _ => simp only [localsOf] at h; exact tail ls h hv
+
+/-! ### type annotations -/
+
+/-- the type annotations of one visibility, flattened in file order -/
+def codeAnnosOf (visible : Bool) : List SCodeAttr → List SCodeTypeAnno
+  | [] => []
+  | .typeAnnos _ v as :: r => (if v = visible then as else []) ++ codeAnnosOf visible r
+  | _ :: r => codeAnnosOf visible r
+
+theorem tAnnosRaw_eq (lf : Labels) (pos : Nat → Nat) (v : Bool) (as : List SCodeAttr) :
+    tAnnosRaw lf pos v as = (codeAnnosOf v as).map (typeAnnoRaw lf pos) := by
+  induction as with
+  | nil => rfl
+  | cons a as ih =>
+    cases a <;> simp only [tAnnosRaw, codeAnnosOf, ih]
+    case typeAnnos nc v' xs => by_cases h : v' = v <;> simp [h]
+
+theorem typeAnnosOf_eq (v : Bool) (as : List SCodeAttr) : typeAnnosOf v as = (codeAnnosOf v as).map SCodeTypeAnno.fact := by
+  induction as with
+  | nil => rfl
+  | cons a as ih =>
+    cases a <;> simp only [typeAnnosOf, codeAnnosOf, ih]
+    case typeAnnos nc v' xs => by_cases h : v' = v <;> simp [h]
+
+theorem mem_codeAnnosOf (v : Bool) (as : List SCodeAttr) (a : SCodeTypeAnno) (h : a ∈ codeAnnosOf v as) :
+    ∃ nc xs, SCodeAttr.typeAnnos nc v xs ∈ as ∧ a ∈ xs := by
+  induction as with
+  | nil => simp [codeAnnosOf] at h
+  | cons b as ih =>
+    have tail : a ∈ codeAnnosOf v as → ∃ nc xs, SCodeAttr.typeAnnos nc v xs ∈ b :: as ∧ a ∈ xs := by
+      intro h'
+      obtain ⟨nc, xs, hm, hx⟩ := ih h'
+      exact ⟨nc, xs, by simp [hm], hx⟩
+    cases b with
+    | typeAnnos nc v' xs =>
+      simp only [codeAnnosOf, List.mem_append] at h
+      rcases h with h | h
+      · by_cases hv : v' = v
+        · subst hv
+          simp only [if_true] at h
+          exact ⟨nc, xs, by simp, h⟩
+        · simp [hv] at h
+      · exact tail h
+    | frames _ _ => exact tail (by simpa [codeAnnosOf] using h)
+    | lines _ _ => exact tail (by simpa [codeAnnosOf] using h)
+    | lvt _ _ => exact tail (by simpa [codeAnnosOf] using h)
+    | lvtt _ _ => exact tail (by simpa [codeAnnosOf] using h)
+    | unknown _ _ _ => exact tail (by simpa [codeAnnosOf] using h)
+
+/-- the instruction indices a target names -/
+def targetIdx : Target → List Nat
+  | .localVar _ tbl => tbl.flatMap (fun e => [e.1, e.2.1])
+  | .offset _ t => [t]
+  | .offsetArg _ t _ => [t]
+  | _ => []
+
+theorem targetIdx_refs (pos : Nat → Nat) (t : Target) : (targetIdx t).map pos = targetRefs pos t := by
+  cases t <;> simp [targetIdx, targetRefs, List.map_flatMap]
+
+theorem targetIdx_le (n : Nat) (t : Target) (h : codeTargetOk n t) (i : Nat) (hi : i ∈ targetIdx t) : i ≤ n := by
+  cases t <;> simp only [codeTargetOk] at h <;> simp only [targetIdx, List.mem_flatMap, List.mem_cons, List.not_mem_nil, or_false] at hi
+  case localVar tag tbl =>
+    obtain ⟨e, he, hi⟩ := hi
+    have := h.2.2 e he
+    rcases hi with rfl | rfl <;> omega
+  case offset tag t => subst hi; omega
+  case offsetArg tag t x => subst hi; omega
+
+theorem target_resolve (m : List (Nat × Nat)) (lf : Labels) (pos : Nat → Nat) (N : Nat) (hr : Resolves m lf pos N) (t : Target)
+    (ht : ∀ i ∈ targetIdx t, i ≤ N ∧ (lf.get (pos i)).isSome = true) : Target.resolve m (targetRaw lf pos t) = some t := by
+  cases t with
+  | localVar tag tbl =>
+    have := mapM'_map (fun (x : Nat × Nat × Nat) => (do
+        let a ← lookupLabel m x.1; let b ← lookupLabel m x.2.1; pure (a, b, x.2.2) : Option (Nat × Nat × Nat)))
+      (fun e : Nat × Nat × Nat => (labOf lf pos e.1, labOf lf pos e.2.1, e.2.2)) id tbl (fun e he => by
+        have h1 := ht e.1 (by simp only [targetIdx, List.mem_flatMap]; exact ⟨e, he, by simp⟩)
+        have h2 := ht e.2.1 (by simp only [targetIdx, List.mem_flatMap]; exact ⟨e, he, by simp⟩)
+        simp [hr.ok _ h1.1 h1.2, hr.ok _ h2.1 h2.2])
+    simp only [List.map_id] at this
+    simp only [Target.resolve, targetRaw]
+    rw [this]; rfl
+  | offset tag t =>
+    have h1 := ht t (by simp [targetIdx])
+    simp [Target.resolve, targetRaw, hr.ok _ h1.1 h1.2]
+  | offsetArg tag t i =>
+    have h1 := ht t (by simp [targetIdx])
+    simp [Target.resolve, targetRaw, hr.ok _ h1.1 h1.2]
+  | _ => rfl
 
 def svTargets : SVType → List Nat
   | .uninit t => [t]
@@ -288,7 +379,26 @@ theorem readCode_resolve (p : Pool) (bsms : Option (List Bsm)) (c : CodeLayout) 
         rw [← e2] at k2
         simp [k1, k2])]
       simp
-  simp only [Code.resolve, CodeLayout.raw, CodeLayout.facts, hins, hexc, hlines, hlocals, mapM', Option.bind_eq_bind,
+  -- type annotations
+  have htas : ∀ v, mapM' (TypeAnno.resolve (labelIndex (entriesFrom lf c.pos (framesOf c.attrs) 0 c.insns) (lf.get (c.pos c.insns.length))))
+      (tAnnosRaw lf c.pos v c.attrs) = some (typeAnnosOf v c.attrs) := by
+    intro v
+    rw [tAnnosRaw_eq, typeAnnosOf_eq]
+    exact mapM'_map _ _ _ _ (fun a ha => by
+      obtain ⟨nc, xs, hm, hx⟩ := mem_codeAnnosOf v c.attrs a ha
+      have hla := hleg.attrs _ hm
+      simp only [SCodeAttr.Legal] at hla
+      have hal := (hla.2.2.2.1 a hx).1
+      have := target_resolve _ lf c.pos c.insns.length hr a.target (fun i hi => by
+        refine ⟨targetIdx_le _ _ hal i hi, hrefs _ ?_⟩
+        simp only [CodeLayout.refOffsets, List.mem_append, List.mem_flatMap]
+        refine Or.inr ⟨_, hm, ?_⟩
+        simp only [attrRefs, List.mem_flatMap]
+        refine ⟨a, hx, ?_⟩
+        rw [← targetIdx_refs]
+        exact List.mem_map.mpr ⟨i, hi, rfl⟩)
+      simp [TypeAnno.resolve, typeAnnoRaw, this, SCodeTypeAnno.fact])
+  simp only [Code.resolve, CodeLayout.raw, CodeLayout.facts, hins, hexc, hlines, hlocals, htas, Option.bind_eq_bind,
     Option.bind_some, Option.pure_def]
 
 end ClassRead
